@@ -126,6 +126,46 @@ def explore(ctx, scale=1.0):
                               {"sequence": seq[:j + 1], "comments": com, "step": j, "version": v})
                 break
 
+    # ---------------- (2b) one Parser that expands INCLUDEs, reused across files some of which fail ----------------
+    import tempfile, shutil, os
+    tmp = tempfile.mkdtemp(prefix="mappy_c12_")
+    try:
+        files = {
+            "ok.map": 'MAP\n  NAME "ok"\n  INCLUDE "lay.map"\nEND\n',
+            "lay.map": 'LAYER\n  NAME "l"\n  TYPE POINT\n  INCLUDE "cls.map"\nEND\n',
+            "cls.map": 'CLASS\n  NAME "c"\nEND\n',
+            "plain.map": 'MAP\n  NAME "plain"\nEND\n',
+            "missing.map": 'MAP\n  INCLUDE "miss1.map"\nEND\n',
+            "miss1.map": 'LAYER\n  NAME "m"\n  INCLUDE "nowhere.map"\nEND\n',
+            "deep.map": 'MAP\n  INCLUDE "d1.map"\nEND\n',
+            "cycle.map": 'MAP\n  INCLUDE "cycle.map"\nEND\n',
+            "broken.map": 'MAP\n  NAME "unterminated\nEND\n',
+        }
+        for i in range(1, 8):
+            files[f"d{i}.map"] = f'LAYER\n  NAME "d{i}"\n  INCLUDE "d{i + 1}.map"\nEND\n' if i < 7 else 'CLASS\nEND\n'
+        for fn, txt in files.items():
+            with open(os.path.join(tmp, fn), "w", encoding="utf-8") as f:
+                f.write(txt)
+        roots = ["ok.map", "plain.map", "missing.map", "deep.map", "cycle.map", "broken.map", "lay.map"]
+        def parse_one(P, fn):
+            tree = P.parse_file(os.path.join(tmp, fn))
+            return snap(MapfileToDict().transform(tree))
+        for sidx in range(int((40 if ctx.thorough else 8) * scale)):
+            seq = [rng.choice(roots) for _ in range(rng.randint(3, 8))]
+            if sidx == 0:
+                seq = ["ok.map", "missing.map", "ok.map", "deep.map", "ok.map", "cycle.map", "lay.map"]
+            Pr = Parser(expand_includes=True)
+            ctx.case(("reuse-includes", tuple(seq)), True); ctx.count("reuse:includes")
+            for j, fn in enumerate(seq):
+                reused = outcome(lambda: parse_one(Pr, fn))
+                fresh = outcome(lambda: parse_one(Parser(expand_includes=True), fn))
+                if reused != fresh:
+                    ctx.violation("history:includes", f"file {j + 1} of a sequence ({fn}) gives a different result on a reused Parser than on a fresh one "
+                                  f"(after earlier files that failed inside an INCLUDE)", {"sequence": seq[:j + 1], "files": files, "reused": str(reused)[:200], "fresh": str(fresh)[:200]})
+                    break
+    finally:
+        shutil.rmtree(tmp, ignore_errors=True)
+
     # ---------------- (3) threads ----------------
     rounds = int((5 if ctx.thorough else 1) * scale)
     texts = [t for t in pool if len(t) < 3000][:40]
